@@ -1,11 +1,17 @@
 import RsMatterVerif.Model.Codec.Buf
 import RsMatterVerif.Model.Codec.DerRead
 import RsMatterVerif.Model.Codec.CmsCd
+import RsMatterVerif.Model.Codec.X509
+import RsMatterVerif.Model.Codec.CdContent
 import Driver.C17U
 /-!
 C17 driver, DER-based decoders (case kinds `der`, `dersig`, `cd`, `x509`, `csr`; harness: `c17_x509.rs`).
 
 * `der`, `dersig`: the answers are recomputed with the model `Model/Codec/DerRead.lean` (`DIS` on a difference).
+* `x509`, `csr`, `cd`: every parser answer is recomputed with `Model/Codec/X509.lean` (`X509Cert::new` for DAC / PAI /
+  PAA with all accessors, `CsrRef::new` with key, signed range and raw signature), `Model/Codec/CmsCd.lean` and
+  `Model/Codec/CdContent.lean` (`CertificationElements::decode` / `validate`); signature verification is symbolic
+  (the `verify=` word is not recomputed).
 * every kind: the oracle — no `panic`, no `timeout`; every byte field returned as a borrowed slice
   (`@off:len`) lies inside the input; a round trip (`rt` / `crt` / `gen` / `tlv`) returns the fields that
   were encoded (computed here from the op's fields, not from the model).
@@ -188,7 +194,34 @@ def stepDersig (op : List String) (out : String) : String :=
     | _, _ => "BAD hex"
   | _ => "BAD op"
 
-/-! ### `cd`: oracle only -/
+/-! ### `cd`: CMS envelope, TLV content and validation recomputed with the models; oracle -/
+
+def toU8 (l : List Nat) : Tlv.Bytes := l.map UInt8.ofNat
+def hexU8 (b : Tlv.Bytes) : String := hex (b.map (·.toNat))
+
+/-- the harness' text form of `CertificationElements` -/
+def cdShow (r : Except Cd.CdErr Cd.Elements) : String :=
+  match r with
+  | .error e => if (match e with | .panic _ => true | _ => false) then "panic" else s!"err {e.name}"
+  | .ok c =>
+    let pids := if c.productIds.isEmpty then "-" else ",".intercalate (c.productIds.map toString)
+    let dac := match c.dacOrigin with | some (v, p) => s!"{v},{p}" | none => "-"
+    let paa := if c.authorizedPaa.isEmpty then "-" else ",".intercalate (c.authorizedPaa.map hexU8)
+    s!"ok fv={c.formatVersion} vid={c.vendorId} pids={pids} n={c.productIds.length} dt={c.deviceTypeId} cid={hexU8 c.certificateId} sl={c.securityLevel} si={c.securityInformation} vn={c.versionNumber} ct={c.certificationType} dac={dac} paa={paa} m={c.authorizedPaa.length}"
+
+/-- `cval`: decode, then validate against the device identity of the op -/
+def cvalModel (content : List Nat) (f : List Nat) (skid : List Nat) : String :=
+  match Cd.decode (toU8 content), f with
+  | .error e, _ => s!"nodecode {cdShow (.error e)}"
+  | .ok c, [vid, pid, dvid, dpid, pvid, ppid] =>
+    let u16 := fun (x : Nat) => x % 65536
+    let sk := (skid.take 20) ++ List.replicate (20 - (skid.take 20).length) 0
+    let d : Cd.DeviceInfo := { vendorId := u16 vid, productId := u16 pid, dacVendorId := u16 dvid, dacProductId := u16 dpid,
+                               paiVendorId := u16 pvid, paiProductId := u16 ppid, paaSkid := toU8 sk }
+    match Cd.validate c d with
+    | .ok _ => "ok"
+    | .error e => cdShow (.error e)
+  | .ok _, _ => "BAD"
 
 def TEST_KID : String := "62fa823359acfaa9963e1cfa140addf504f37160"
 
@@ -255,8 +288,22 @@ def stepCd (op : List String) (out : String) : String :=
     match unhex h with
     | none => "BAD hex"
     | some bs => verdict (cmsShow (cmsParse bs)) out (slicesInside bs.length out)
-  | ["cdec", _] => match cdSane out with | some e => s!"ORA {e}" | none => "ok"
-  | ["cver", _, _] => match cdSane out with | some e => s!"ORA {e}" | none => "ok"
+  | ["cdec", h] =>
+    match unhex h with
+    | none => "BAD hex"
+    | some bs => verdict (cdShow (Cd.decode (toU8 bs))) out (cdSane out)
+  | ["cver", _, h] =>
+    match cdSane out, unhex h with
+    | some e, _ => s!"ORA {e}"
+    | none, none => "BAD hex"
+    | none, some bs =>
+      -- the envelope part is recomputed; key lookup and signature verification are not modelled
+      match cmsParse bs with
+      | .error e => verdict (derErr e) out none
+      | .ok c =>
+        if out.startsWith "ok " then verdict (cdShow (Cd.decode (toU8 c.cd))) out none
+        else if out = "err CdInvalidFormat" ∨ out = "err Invalid" then s!"DIS envelope accepted by the model, refused: {out}"
+        else "ok"
   | "crt" :: kvs =>
     let kv := kvOf kvs
     match out.splitOn " | " with
@@ -270,6 +317,7 @@ def stepCd (op : List String) (out : String) : String :=
         | _, some e => s!"ORA {e}"
         | none, none =>
           if cmsShow (cmsParse msg) ≠ cmsRes then s!"DIS {cmsShow (cmsParse msg)}" else
+          if cdShow (Cd.decode (toU8 content)) ≠ decRes then s!"DIS {cdShow (Cd.decode (toU8 content))}" else
           -- TLV content round trip
           let o1 : Option String := match cdWant kv with
             | some want => if decRes = want then none else some s!"CD round trip: want [{want}] got [{decRes}]"
@@ -299,19 +347,24 @@ def stepCd (op : List String) (out : String) : String :=
     match nats [a, b, c, d, e, f] with
     | none => "BAD nums"
     | some fs =>
-      if out.startsWith "nodecode" then
-        (if (cdWant kv).isSome then s!"ORA legal CD fields were not decoded: {out}" else "ok")
-      else if (cdWant kv).isNone then "ok"
-      else match cvalSpec fs skid kv with
-        | some want =>
-          if want = (out = "ok") then "ok"
-          else s!"ORA CD validation: specification says {if want then "valid" else "invalid"}, implementation answered {out}"
-        | none => "BAD cval"
+      if out.startsWith "err " then "ok" else     -- the TLV writer refused the fields
+      let (contentH, res) := splitFirst out
+      match unhex contentH, unhex skid with
+      | some content, some sk =>
+        let ora : Option String :=
+          if res.startsWith "nodecode" then
+            (if (cdWant kv).isSome then some s!"legal CD fields were not decoded: {res}" else none)
+          else if (cdWant kv).isNone then none
+          else match cvalSpec fs skid kv with
+            | some want =>
+              if want = (res = "ok") then none
+              else some s!"CD validation: specification says {if want then "valid" else "invalid"}, implementation answered {res}"
+            | none => none
+        verdict s!"{contentH} {cvalModel content fs sk}" out ora
+      | _, _ => "BAD cval output"
   | _ => "BAD op"
 
-/-! ### `x509`: oracle only -/
-
-def U64_MAX : Nat := 18446744073709551615
+/-! ### `x509`: every parser answer recomputed with the model; oracle -/
 
 /-- `is_valid_at` bits for the probes `[0, u64::MAX, nb, na, nb-1, na+1]` -/
 def validWant (nb na : Nat) : String :=
@@ -329,6 +382,29 @@ def certSane (der : List Nat) (seg : String) : Option String :=
       if v = validWant nb na then none else some s!"is_valid_at inconsistent with not_before/not_after: {v} for {nb}..{na}"
     | _, _, _ => none
 
+def kindOf (ty : String) : CertKind := if ty = "dac" then .dac else if ty = "pai" then .pai else .paa
+
+def slAt (p : List Nat × Nat) : String := atStr p.2 p.1.length
+
+/-- the harness' text form of a parsed certificate: accessors, validity probes -/
+def certShow (r : Except E Cert) : String :=
+  match r with
+  | .error e => derErr e
+  | .ok c =>
+    let nb := timeToUnixSecs c.notBefore
+    let na := timeToUnixSecs c.notAfter
+    let akid := match c.akid with | some a => slAt a | none => "-"
+    s!"ok skid={slAt c.skid} akid={akid} pk={slAt c.pk} vid={optS c.vid} pid={optS c.pid} nb={nb} na={na} valid={validWant nb na}"
+
+def modelSeg (ty : String) (der : List Nat) : String := certShow (x509New (kindOf ty) der)
+
+def modelAll (der : List Nat) : String :=
+  " | ".intercalate (["dac", "pai", "paa"].map fun t => s!"{t}:{modelSeg t der}")
+
+/-- `DIS` when the model's text differs (after the oracle verdict `v` said ok) -/
+def thenModel (v : String) (model out : String) : String :=
+  if v ≠ "ok" then v else if model = out then "ok" else s!"DIS {model}"
+
 def isHex4 (s : String) : Bool := s.length == 4 && s.toList.all fun c => c.isDigit || ('a' ≤ c && c ≤ 'f') || ('A' ≤ c && c ≤ 'F')
 
 def hex4Val (s : String) : Nat :=
@@ -343,7 +419,9 @@ def certLegal (ty : String) (kv : String → Option String) : Bool :=
   let present := fun k => g k ≠ "-"
   let okVid := fun k => !(present k) || isHex4 (g k)
   let ku := g "ku"
-  let common := g "bcc" = "1" ∧ g "kuc" = "1" ∧ g "unk" ≠ "2" ∧ present "skid" ∧
+  -- structural variants (`x=`) and raw time elements are compared with the model only
+  let common := !(present "x") ∧ !(present "nbraw") ∧ !(present "naraw") ∧
+    g "bcc" = "1" ∧ g "kuc" = "1" ∧ g "unk" ≠ "2" ∧ present "skid" ∧
     okVid "ivid" ∧ okVid "ipid" ∧ okVid "svid" ∧ okVid "spid" ∧
     ((optHex (kv "pk")).getD []).length = 65 ∧ ((optHex (kv "pk")).getD []).head? = some 4 ∧
     natOf (kv "nb") ≤ 253402300799 ∧ (g "na" = "inf" ∨ natOf (kv "na") ≤ 253402300799) ∧
@@ -415,28 +493,28 @@ def stepX509 (op : List String) (out : String) : String :=
                   | none => some "no public key"
                 else none
               | none => none
-            match bad with | some e => s!"ORA {e}" | none => "ok"
+            thenModel (match bad with | some e => s!"ORA {e}" | none => "ok") s!"{key} {derH} {modelAll der}" out
       | _ => "ok"
     else
       match unhex h with
       | none => "BAD hex"
       | some der =>
-        if ty = "all" then (match allSane der out with | some e => s!"ORA {e}" | none => "ok")
-        else match certSane der out with | some e => s!"ORA {e}" | none => "ok"
+        if ty = "all" then thenModel (match allSane der out with | some e => s!"ORA {e}" | none => "ok") (modelAll der) out
+        else thenModel (match certSane der out with | some e => s!"ORA {e}" | none => "ok") (modelSeg ty der) out
   | "rt" :: ty :: kvs =>
     let kv := kvOf kvs
     let (derH, seg) := splitFirst out
     match unhex derH with
     | none => "BAD rt output"
     | some der =>
-      match certSane der seg with
+      thenModel (match certSane der seg with
       | some e => s!"ORA {e}"
       | none =>
         if certLegal ty kv then
           match certRoundTrip der seg kv with
           | some e => s!"ORA certificate round trip ({ty}): {e}"
           | none => "ok"
-        else "ok"
+        else "ok") s!"{derH} {modelSeg ty der}" out
   | "gen" :: _ :: kvs =>
     let kv := kvOf kvs
     match words out with
@@ -456,14 +534,33 @@ def stepX509 (op : List String) (out : String) : String :=
               else if (field seg "skid").bind (sliceBytes der) ≠ some skid then "ORA generated certificate: subject key id differs"
               else if field seg "nb" ≠ some nbW then s!"ORA generated certificate: not_before want {nbW}"
               else if field seg "na" ≠ some naW then s!"ORA generated certificate: not_after want {naW}"
-              else "ok"
-            else "ok"
+              else thenModel "ok" (modelAll der) (rest.trimAscii.toString)
+            else thenModel "ok" (modelAll der) (rest.trimAscii.toString)
           | none => "BAD gen output"
       | _, _, _ => "ok"
     | _ => "ok"
   | _ => "BAD op"
 
-/-! ### `csr`: oracle only -/
+/-! ### `csr`: structure, key, signed range and raw signature recomputed with the model; `verify=` is symbolic -/
+
+/-- everything the harness prints before ` verify=…` -/
+def csrShow (r : Except E Csr) : String :=
+  match r with
+  | .error e => derErr e
+  | .ok c =>
+    let sig := match c.sig with | .ok s => hex s | .error e => "!" ++ e.name
+    s!"ok pk={slAt c.pk} tbs={atStr c.tbsStart (c.tbsEnd - c.tbsStart)} sig={sig}"
+
+/-- compare the parser part of `seg` with the model; a CSR whose signature cannot be converted is never verified -/
+def csrVerdict (der : List Nat) (seg : String) : String :=
+  let m := csrNew der
+  let got := ((seg.splitOn " verify=").head!)
+  if csrShow m ≠ got then s!"DIS {csrShow m}"
+  else match m with
+    | .ok c => (match c.sig with
+        | .error _ => if field seg "verify" = some "ok" then "ORA CSR verified although its signature is not a DER ECDSA signature" else "ok"
+        | .ok _ => "ok")
+    | .error _ => "ok"
 
 def stepCsr (op : List String) (out : String) : String :=
   if crashed out then "ORA CSR parser panicked or did not terminate" else
@@ -471,7 +568,7 @@ def stepCsr (op : List String) (out : String) : String :=
   | ["csr", h] =>
     match unhex h with
     | none => "BAD hex"
-    | some bs => match slicesInside bs.length out with | some e => s!"ORA {e}" | none => "ok"
+    | some bs => match slicesInside bs.length out with | some e => s!"ORA {e}" | none => csrVerdict bs out
   | ["rt", _] =>
     match words out with
     | pkH :: derH :: "ok" :: rest =>
@@ -483,7 +580,8 @@ def stepCsr (op : List String) (out : String) : String :=
         | none =>
           if (field seg "pk").bind (sliceBytes der) ≠ some pk then "ORA CSR round trip: public key differs"
           else if field seg "verify" ≠ some "ok" then s!"ORA CSR round trip: self-signature not verified ({seg})"
-          else "ok"
+          else if (field seg "tbs").bind (sliceBytes der) = none then "ORA CSR round trip: no signed range"
+          else csrVerdict der ("ok " ++ seg)
       | _, _ => "BAD rt output"
     | _ => s!"ORA CSR built by the real encoder was refused: {out.take 80}"
   | _ => "BAD op"
